@@ -152,3 +152,23 @@ C06L += induction(
     "implies(all_nz(filter_potential(XS, j), env, len(filter_potential(XS, j))) and certain_all_nz(XS, env, j), prod_den(XS, env, j) != 0)",
     uses_step=[("stab.all_nz", {"XS": "filter_potential(XS, j - 1)", "T": "[XS[j - 1]]", "env": "env", "j": "len(filter_potential(XS, j - 1))"})],
 )
+
+# L4 (C06): the emitted Rush-Larsen right-hand side denotes the exponential-integrator formula, guarded.
+# L = value of the `<d>_linearized` symbol (= g, by the preceding assignment), F = value of the derivative symbol.
+_L4_LET = ("L", "den(Symbol(x.name + '_linearized'), env)"), ("F", "den(x.symbol, env)"), ("DT", "den(dt, env)"), \
+          ("RLV", "den(rl_term(x, dt, delta), env)"), ("G", "diff(x.expr, x.state.symbol)")
+
+
+def _l4_prop():
+    sub = dict(_L4_LET)
+    body = ("implies(reciprocals_defined(env) and delta >= 0 and L == den(G, env), "
+            "ite(frac_nonzero(G), L != 0 and RLV * L == F * (rexp(L * DT) - 1), "
+            "ite(abs(L) > delta, RLV * L == F * (rexp(L * DT) - 1), RLV == DT * F)))")
+    # textual let-expansion (longest names first)
+    import re
+    for k in sorted(sub, key=len, reverse=True):
+        body = re.sub(rf"\b{k}\b", f"({sub[k]})", body)
+    return body
+
+
+C06L += direct("L4.rush_larsen_formula", {"x": "Atom", "dt": "Sym", "delta": "Real", "env": "Env"}, _l4_prop())
